@@ -154,7 +154,7 @@ inductive Frame where
   | discard                                                      -- call statement: drop results, continue
   | pcallB (savedLine : Nat) (savedFn : Option Nat)
   | xpcallB (h : SVal) (savedLine : Nat) (savedFn : Option Nat)
-  | xpcallH
+  | xpcallH (savedLine : Nat) (savedFn : Option Nat)
   | coB                                                          -- bottom of a coroutine
   | resumeB (co : Nat) (wrap : Bool)
   | ret1 | retBool (neg : Bool)
